@@ -3,9 +3,16 @@ Static tie for src/sign.rs: every protocol method of `impl Sign`, compiled state
 into an interaction tree by `translate_ctrl.py` (`Flipdot.Generated.Controller`, regenerated from
 /repo on every run), is the hand-written model's tree (`Flipdot.Model.Controller`) — equal as
 functions of the replies, hence equal on every reply script, bus and history.  Obligations added to
-`./check C08 … C11`.
+`./check C08 … C11` and `C17`.
+
+The proofs are deliberately *semantic*: `prog_eq` peels the common sends and decides the remaining
+if-chains over a reply by case analysis, so a rewrite of the Rust source that keeps the behaviour
+(arms reordered, `match` turned into `if`/early `return`, a condition spelled differently) still
+checks, while a changed reaction to some reply leaves an unsolved goal whose hypotheses spell out
+the offending reply sequence.
 -/
 import Flipdot.Generated.Controller
+set_option linter.unusedSimpArgs false
 namespace Flipdot.Tie.Controller
 open Flipdot
 namespace G
@@ -13,9 +20,22 @@ export Flipdot.Generated.Controller (ensureUnconfigured sendDataLoop sendData co
   sendPages switchPageLoop switchPage loadNextPage showLoadedPage shutDown)
 end G
 
+/-- Equality of two interaction trees: peel equal sends, split the if-chains / matches over the
+    reply on both sides, and close each combination of cases by simplification. -/
+macro "prog_eq" : tactic => `(tactic|
+  (simp only [expect, finishResetSeq, ownReport?_eq_some, anyReport?_eq_some]
+   repeat' (first
+     | rfl
+     | (apply send_congr; intro _)
+     | (apply sendChunks_congr; intro _)
+     | (funext _)
+     | (split <;> simp_all [ownReport?_eq_some, anyReport?_eq_some, ownReport?_eq_none]))))
+
 /-- `ensure_unconfigured`, compiled from the source, is the model's (with `Ok(())` as continuation). -/
 theorem ensureUnconfigured_eq (a : UInt16) :
-    G.ensureUnconfigured a = Flipdot.ensureUnconfigured a (.done ()) := rfl
+    G.ensureUnconfigured a = Flipdot.ensureUnconfigured a (.done ()) := by
+  unfold Generated.Controller.ensureUnconfigured Flipdot.ensureUnconfigured
+  prog_eq
 
 /-- The model's `ensureUnconfigured` threads its continuation. -/
 theorem ensure_bind {β : Type} (a : UInt16) (f : Unit → Prog β) :
@@ -42,22 +62,21 @@ theorem sendDataLoop_eq (a : UInt16) (data : List (List UInt8)) (op : Op) (succ 
     intro fuel _ hf
     obtain ⟨f, rfl⟩ : ∃ f, fuel = f + 1 := ⟨fuel - 1, by omega⟩
     simp only [Generated.Controller.sendDataLoop, transfer, chunkMsgsGen_16]
-    apply expect_congr; apply sendChunks_congr; intro n; apply expect_congr; apply send_congr; intro r
-    simp
+    prog_eq
   | succ n ih =>
     intro fuel hr hf
     obtain ⟨f, rfl⟩ : ∃ f, fuel = f + 1 := ⟨fuel - 1, by omega⟩
     have hlt : 3 - (n + 1) < 3 := by omega
     have hstep : 3 - (n + 1) + 1 = 3 - n := by omega
-    simp only [Generated.Controller.sendDataLoop, transfer, chunkMsgsGen_16]
-    apply expect_congr; apply sendChunks_congr; intro k; apply expect_congr; apply send_congr; intro r
-    simp only [hlt, and_true, hstep]
-    rw [ih f (by omega) (by omega)]
+    have ih' := ih f (by omega) (by omega)
+    simp only [Generated.Controller.sendDataLoop, transfer, chunkMsgsGen_16, hstep, ih']
+    prog_eq
 
 /-- `send_data` compiled from the source is the model's three-attempt `transfer`. -/
 theorem sendData_eq (a : UInt16) (data : List (List UInt8)) (op : Op) (succ failS : State) (fuel : Nat)
-    (h : 3 ≤ fuel) : G.sendData a data op succ failS fuel = transfer a (allChunkMsgs data) op succ failS 2 :=
-  sendDataLoop_eq a data op succ failS 2 fuel (by omega) (by omega)
+    (h : 3 ≤ fuel) : G.sendData a data op succ failS fuel = transfer a (allChunkMsgs data) op succ failS 2 := by
+  unfold Generated.Controller.sendData
+  exact sendDataLoop_eq a data op succ failS 2 fuel (by omega) (by omega)
 
 /-- `Sign::configure`. -/
 theorem configure_eq (a : UInt16) (t : SignType) (fuel : Nat) (h : 3 ≤ fuel) :
@@ -69,17 +88,16 @@ theorem configure_eq (a : UInt16) (t : SignType) (fuel : Nat) (h : 3 ≤ fuel) :
 theorem configureIfNeeded_eq (a : UInt16) (t : SignType) (fuel : Nat) (h : 3 ≤ fuel) :
     G.configureIfNeeded a t fuel = Flipdot.configureIfNeeded a t := by
   unfold Generated.Controller.configureIfNeeded Flipdot.configureIfNeeded
-  apply send_congr; intro r
   simp only [Prog.bind_done_unit, configure_eq a t fuel h]
+  apply send_congr; intro r
   cases ho : ownReport? a r with
   | none =>
-    have hne : ∀ s, r ≠ some (.reportState a s) := fun s hr => by
-      rw [(ownReport?_eq_some).2 hr] at ho; cases ho
-    simp [hne]
+    have hne : ∀ s, r ≠ some (.reportState a s) := ownReport?_eq_none.1 ho
+    simp [hne, ownReport?_eq_some]
   | some s =>
     have hr := (ownReport?_eq_some).1 ho
     subst hr
-    cases s <;> simp [readyStates]
+    cases s <;> simp [readyStates, ownReport?_eq_some]
 
 /-- `Sign::send_pages`. -/
 theorem sendPages_eq (a : UInt16) (pages : List (List UInt8)) (fuel : Nat) (h : 3 ≤ fuel) :
@@ -87,37 +105,41 @@ theorem sendPages_eq (a : UInt16) (pages : List (List UInt8)) (fuel : Nat) (h : 
   unfold Generated.Controller.sendPages Flipdot.sendPages
   rw [sendData_eq _ _ _ _ _ _ h]
   congr 1; funext _
-  apply expect_congr; apply send_congr; intro r2
-  by_cases hr : r2 = some (.reportState a .showingPages)
-  · subst hr; simp [ownReport?]
-  · have : ownReport? a r2 ≠ some .showingPages := fun h' => hr ((ownReport?_eq_some).1 h')
-    simp [hr, this]
+  prog_eq
 
-/-- `switch_page`: the polling loop compiled from the source is the model's, for every fuel. -/
-theorem switchPage_eq (a : UInt16) (target trigger : State) (op : Op) (fuel : Nat) :
-    G.switchPage a target trigger op fuel = Flipdot.switchPage a target trigger op fuel := by
-  unfold Generated.Controller.switchPage
-  induction fuel with
-  | zero => rfl
-  | succ f ih =>
-    simp only [Generated.Controller.switchPageLoop, Flipdot.switchPage]
-    apply send_congr; intro r
-    cases ho : ownReport? a r with
-    | none =>
-      have hne : ∀ s, r ≠ some (.reportState a s) := fun s hr => by
-        rw [(ownReport?_eq_some).2 hr] at ho; cases ho
-      simp [hne]
-    | some s =>
-      have hr := (ownReport?_eq_some).1 ho
-      subst hr
-      simp only [Option.some.injEq, Msg.reportState.injEq, true_and, ih]
+/-- One polling loop instance: after fixing target, trigger and operation (the private `switch_page` is
+    only ever called with the two combinations below) the compiled loop is the model's, for every fuel.
+    The reply is classified as own report of one of the 13 states / anything else, which decides every
+    condition on both sides. -/
+macro "switch_page_eq" a:ident : tactic => `(tactic|
+  (unfold Generated.Controller.switchPage
+   intro fuel
+   induction fuel with
+   | zero => rfl
+   | succ f ih =>
+     simp only [Generated.Controller.switchPageLoop, Flipdot.switchPage, ih]
+     apply send_congr; intro r
+     cases ho : ownReport? $a r with
+     | none =>
+       have hne : ∀ s, r ≠ some (.reportState $a s) := ownReport?_eq_none.1 ho
+       simp [hne, ownReport?_eq_some]
+     | some s =>
+       have hr := (ownReport?_eq_some).1 ho
+       subst hr
+       cases s <;> simp [ownReport?_eq_some, expect]))
 
-theorem loadNextPage_eq (a : UInt16) (fuel : Nat) : G.loadNextPage a fuel = Flipdot.loadNextPage a fuel :=
-  switchPage_eq a _ _ _ fuel
+/-- `Sign::load_next_page` = `switch_page(PageLoaded, PageShown, LoadNextPage)`. -/
+theorem loadNextPage_eq (a : UInt16) : ∀ fuel, G.loadNextPage a fuel = Flipdot.loadNextPage a fuel := by
+  unfold Generated.Controller.loadNextPage Flipdot.loadNextPage
+  switch_page_eq a
 
-theorem showLoadedPage_eq (a : UInt16) (fuel : Nat) : G.showLoadedPage a fuel = Flipdot.showLoadedPage a fuel :=
-  switchPage_eq a _ _ _ fuel
+/-- `Sign::show_loaded_page` = `switch_page(PageShown, PageLoaded, ShowLoadedPage)`. -/
+theorem showLoadedPage_eq (a : UInt16) : ∀ fuel, G.showLoadedPage a fuel = Flipdot.showLoadedPage a fuel := by
+  unfold Generated.Controller.showLoadedPage Flipdot.showLoadedPage
+  switch_page_eq a
 
-theorem shutDown_eq (a : UInt16) : G.shutDown a = Flipdot.shutDown a := rfl
+theorem shutDown_eq (a : UInt16) : G.shutDown a = Flipdot.shutDown a := by
+  unfold Generated.Controller.shutDown Flipdot.shutDown
+  prog_eq
 
 end Flipdot.Tie.Controller
